@@ -260,6 +260,7 @@ type Features struct {
 	ErrBias                                                                                      int  // per-mille of non-advance outcomes that are the SAME error e:0 (drives error counting)
 	ForcePause                                                                                   bool // error counts configured almost everywhere (default and/or per unit)
 	TimeoutHeavy                                                                                 bool // most non-terminal statuses wait on timeouts
+	LostInFn                                                                                     bool // hooks / delete functions may fail while their process loses the role ("l:k"); acknowledgements may ignore the cancelled context
 }
 
 var AllFeatures = Features{Callbacks: true, Timeouts: true, TwoTimeouts: false, Hooks: true, Delete: true, Parallel: true, Lag: true, PauseAfter: true, Retry: true,
@@ -302,6 +303,9 @@ func (g *Gen) outcomeFor(kind string, status int) string {
 		}
 	case "hook", "delete":
 		if r.Intn(1000) < g.F.BadOutcomes {
+			if g.F.LostInFn && r.Bool() { // the process loses its role while the function runs; the function then fails
+				return "l:" + strconv.Itoa(r.Intn(2))
+			}
 			return "e:" + strconv.Itoa(r.Intn(2))
 		}
 		return "k"
@@ -375,6 +379,9 @@ func (g *Gen) envFor(tok string) Env {
 	}
 	if g.F.Stale && r.Chance(1, 8) {
 		env.Stale = 1 + r.Intn(2)
+	}
+	if g.F.LostInFn && r.Bool() {
+		env.AckIgn = true
 	}
 	return env
 }
@@ -572,6 +579,8 @@ func ParseAction(line string) (Action, error) {
 				env.Outcomes = strings.Split(x[2:], ",")
 			case strings.HasPrefix(x, "s="):
 				env.Stale = atoi(x[2:])
+			case x == "a=1":
+				env.AckIgn = true
 			}
 		}
 		return env
